@@ -13,7 +13,9 @@ CHECKS = {
             "slot/duplicate/lease/leak/open-count/exception-class invariants are evaluated after every transition on the real objects. "
             "Environment answers include will_close responses whose body stalls or is reset, a retried status with Retry-After whose wait can be interrupted, "
             "and bodies that cannot be rewound (a second attempt ends in UnrewindableBodyError before a connection is taken). "
-            "A connection found idle in the pool must have finished its last exchange (answer complete, nothing unread).",
+            "A connection found idle in the pool must have finished its last exchange (answer complete, nothing unread). "
+            "Answers include a receive-side OSError that is neither a ConnectionError nor a timeout (before the status line and in mid-body); one retries value has a status budget below the total "
+            "(the first retried status exhausts it while the response still holds its connection).",
             "simnet socket stand-in (close()/makefile() release semantics), stub TLS for https kinds, environment answer menus listed in the evidence; bounds: deviation and depth per pass as recorded.",
             "DESIGN.md §3 C01"),
     "C02": ("model_checking",
@@ -22,7 +24,8 @@ CHECKS = {
             "every schedule within the preemption bound is executed and checked for exclusive leases, the block=True open-socket bound, progress (deadlock detection), "
             "own-tagged responses, ClosedPoolError-only failures under a racing close(), a socket never closed by a thread that does not hold its lease "
             "(streaming responses disposed of by close()), and socket reclamation after the pool is dropped. "
-            "Deadlock signatures record whether the waiter went to sleep on a queue still attached to the pool, so that the one listed finding (waiting on a queue detached by close()) cannot absorb a different deadlock.",
+            "Deadlock signatures record whether the waiter went to sleep on a queue still attached to the pool, so that the one listed finding (waiting on a queue detached by close()) cannot absorb a different deadlock. "
+            "One server script lets a streamed body stall (read timeout) while a second thread wants a connection: the broken connection must be closed before anybody else can hold it.",
             "CPython GIL memory model at source-line granularity; queue.LifoQueue replaced by a sequentially equivalent stand-in (checked at start-up); simnet sockets.",
             "DESIGN.md §3 C02"),
     "C03": ("model_checking",
@@ -30,7 +33,8 @@ CHECKS = {
             "All histories of 2 (thorough: 3) requests over a step alphabet of method x server behaviour x segmentation x caller behaviour on 6 pool shapes; "
             "every byte ever delivered for request i must be a prefix of payload(i); unclean sockets answer with poisoned payloads. "
             "Server behaviours include body tails that arrive late (after the next checkout) and look like responses - partial Content-Length/chunked bodies, "
-            "a broken chunk-size line, header block only (200 and 205); caller behaviours include release_conn() followed by close() or by dropping the response.",
+            "a broken chunk-size line, header block only (200 and 205); caller behaviours include release_conn() followed by close() or by dropping the response. "
+            "Methods include a lower-case 'head' token (an ordinary method with a response body for http.client and the server).",
             "simnet stand-in for sockets and for the readiness poll; alphabet as listed in mc/checks/c03.py.",
             "DESIGN.md §3 C03"),
     "C07": ("exploration",
@@ -38,7 +42,8 @@ CHECKS = {
             "Every point of cert_reqs x trust x assert_hostname x assert_fingerprint x server_hostname x ssl_context x issuer x certificate/host shape x route x backend runs a real TLS handshake "
             "against a recording server; a reference computed from the settings alone says which checks are demanded and whether the presented certificate passes them; "
             "a failed demanded check must leave zero application bytes at the server, raise SSLError and close the socket; unvalidated deliveries must warn exactly once and never report verified. "
-            "Issuers: configured CA, unrelated CA, and a CA present only in the (simulated) system default store, against every way of configuring trust.",
+            "Issuers: configured CA, unrelated CA, and a CA present only in the (simulated) system default store, against every way of configuring trust. "
+            "Also: the server_hostname override on tunnelled routes, and managers that created a pool for a plain-http origin before the https request.",
             "OpenSSL / pyOpenSSL trusted for the crypto; socketpair transport; reference rules listed in the evidence assumptions; 'either' for CERT_OPTIONAL and for SSLContext/CERT_NONE configuration conflicts.",
             "DESIGN.md §3 C07"),
     "C10": ("exploration",
@@ -46,7 +51,9 @@ CHECKS = {
             "All strings up to the length bound over a hostile alphabet plus injection templates, for method, URL (by position), header name, header value, name/value pairs, automatic-header combinations and body kinds, "
             "through HTTPConnection.request, HTTPConnectionPool.urlopen, PoolManager.request and HTTP2Connection.putheader; either nothing is written or the bytes parse as exactly the one requested request. "
             "After every rejected call the same pool / manager / connection object (close(), then request()) must emit exactly the next benign request. "
-            "Family body-framing: a caller-supplied Content-Length or Transfer-Encoding with and without chunked=True must still give exactly one request under the announced framing.",
+            "Family body-framing: a caller-supplied Content-Length or Transfer-Encoding with and without chunked=True must still give exactly one request under the announced framing. "
+            "Family nonstr: header names/values and bodies of the wrong type (None, float, list, object) - rejected like any other bad input, and nothing of the rejected call may reach the wire later. "
+            "URL positions also take every string up to length 4 over {a ? # /} (which '?' and '#' delimit is decided by order).",
             "simnet; two independent parsers (mc/httpparse.py and the check's own); http.client laxities listed in DESIGN §3 C10 are counted, not flagged.",
             "DESIGN.md §3 C10"),
     "C18": ("exploration",
@@ -62,20 +69,21 @@ CHECKS = {
             "(completed by read(7)-until-empty) and every single-API program runs on a fresh real response obtained through HTTPConnection.getresponse(); "
             "the concatenation must equal the reference payload, sized reads never exceed n, nothing after the end, no empty streamed piece, no exception. "
             "Mixed programs leave a stream()/read_chunked() generator suspended after k pieces and let another API read the rest; partial-read-then-.data programs look at .data twice; "
-            "chunked responses also arrive with the coding name spelt Chunked / CHUNKED.",
+            "chunked responses also arrive with the coding name spelt Chunked / CHUNKED and with other well-formed chunk lines (whitespace before the extension, upper-case hex, leading zeros).",
             "simnet socket stand-in; reference payloads from the gzip/zlib/zstandard one-shot encoders; brotli absent in this image.",
             "DESIGN.md §3 C12"),
     "C13": ("fault_enumeration",
             "exhaustive fault enumeration (every cut, size-line corruption, bit flip, content cut) x read programs through a real pool (simnet), three-valued reference",
             "Every truncation point, every single-byte corruption of each chunk-size line, bit flips at every byte of the compressed stream and every content cut inside intact framing, "
             "each read by every read program (incl. read1() without a size) through a real pool followed by a second request, with the peer closing after the faulty response and with the peer keeping the connection open; "
-            "an independent reference decides bad / either / ok.",
+            "an independent reference decides bad / either / ok. Broken framing is also read with decode_content=False at the request and at every read call.",
             "simnet stand-in; reference chunked de-framer and std decompressobj verdicts in mc/checks/c13.py; 'either' regions documented there.",
             "DESIGN.md §3 C13"),
     "C17": ("model_checking",
             "explicit-state BFS to fixpoint (container, manager) + preemption-bounded schedule exploration of real threads with brute-force linearizability check",
             "(a) BFS to fixpoint over the real RecentlyUsedContainer vs an LRU reference; (b) all interleavings up to the preemption bound of 2-3 real threads doing container operations, "
             "each checked for linearizability, dispose-outside-lock and visible size bound; (c) BFS over PoolManager histories on simnet (LRU order, identity, reclamation of evicted pools); "
+            "(c2) every https-origin sequence up to the depth on PoolManager, ProxyManager (http and https proxy) and proxy_from_url for num_pools 1..3: size bound and LRU order; "
             "(d) all bounded interleavings of racing connection_from_url/clear, each checked for linearizability against a sequential get-or-create cache (returned pools and final cache).",
             "CPython GIL, source-line granularity + lock stand-in operations; SchedRLock checked against threading.RLock at start-up; simnet for sockets.",
             "DESIGN.md §3 C17"),
@@ -93,7 +101,8 @@ CHECKS = {
             "handshake failure in a tunnel, 500, 503+Retry-After, 429+date, 418+Retry-After) is run through the real HTTPConnectionPool/ProxyManager retry loop for every Retry spelling "
             "(False, ints, per-category budgets, allowed_methods, forcelist, raise_on_status, respect_retry_after_header, backoff) x method x pool kind; an accountant over simnet's ledger "
             "(dials, requests received, what the server did, sleeps, final result) checks budgets, non-idempotent re-sends, retries=False, Retry immutability, sleep bounds and how the loop ends. "
-            "Further outcomes: a read-phase OSError that is no ConnectionError, a 413 whose Retry-After date lies in the past; backoff configurations include backoff_max=0.",
+            "Further outcomes: a read-phase OSError that is no ConnectionError, a 413 whose Retry-After date lies in the past; backoff configurations include backoff_max=0. "
+            "Block P: a proxy that is itself reached over TLS, whose handshake can fail on every fresh dial (charged to `other`), against the full budget product.",
             "simnet + stub TLS; virtual clock; random pinned; knob-collapse argument recorded in the evidence assumptions; the ledger never calls Retry methods.",
             "DESIGN.md \u00a73 C04"),
     "C05": ("fault_enumeration",
@@ -102,7 +111,8 @@ CHECKS = {
             "via PoolManager, ProxyManager and a bare pool, GET and POST+body) and of the form family (13 Location forms x 301/302/303/307/308 plus 300/304) is executed; a walker over the network's request log "
             "requires request j to be the j-th intended request with the right method/body/content headers, a follow-up while the budget lasts and none afterwards, and the outcome the statement names. "
             "Further families: an explicit request-level retries=None over a constructor-level policy; the first attempt dying after the request was received so that the RETRIED attempt gets the redirect; "
-            "constructor-level default headers with content headers under request headers made of content headers only.",
+            "constructor-level default headers with content headers under request headers made of content headers only. "
+            "Outside that family the caller's content headers are spelt in mixed capitalisation.",
             "stateless chain server (mc/c05_chains.py) encodes the remaining chain in the URL; only redirects consume budget here (C04 owns faults).",
             "DESIGN.md \u00a73 C05"),
     "C06": ("exploration",
@@ -110,7 +120,8 @@ CHECKS = {
             "Every chain whose hops change host, port, scheme or only letter case / explicit default port, for every spelling of the sensitive header names, every container (dict, HTTPHeaderDict with repeats, manager defaults), "
             "custom remove_headers_on_redirect sets at request and manager level, all 3xx codes and Location forms; from the first origin change on no strip-set header may appear, every other header must arrive unchanged, "
             "single-host pools must raise HostChangedError without dialling elsewhere. Also: manager defaults carrying credentials under request headers made of strip-set fields only "
-            "(no header may APPEAR on a later hop), chains from a non-default port (scheme change keeps host and port), and chains whose first attempt is broken and retried.",
+            "(no header may APPEAR on a later hop), chains from a non-default port (scheme change keeps host and port), and chains whose first attempt is broken and retried; "
+            "a plain dict that holds every sensitive field under two spellings; a single-host pool built without a port (another port of its host is another origin).",
             "origins are judged from what the network saw (dialled address, TLS layer, absolute-form target, CONNECT authority) by an independent normaliser.",
             "DESIGN.md \u00a73 C06"),
     "C08": ("exploration",
@@ -141,7 +152,8 @@ CHECKS = {
             "exhaustive enumeration of all strings up to the length bound over a delimiter-heavy alphabet plus a grammar product of hostile components through parse_url, independent RFC 3986 reading as reference",
             "All strings up to length L over the alphabet (with scheme prefixes) and the full product of hostile userinfo/host/port/path/query/fragment components: parse_url must return a Url or raise LocationParseError; "
             "http/https results must be in normal form (lower-case scheme/host, port range, no dot-segments, RFC characters only, upper-case escapes, no double encoding, stable under re-parse); "
-            "host/port/userinfo must equal those of an independent reading; running time on pathological repetitions up to 10^5 characters must scale linearly (bounded measurement, reported separately).",
+            "host/port/userinfo must equal those of an independent reading; running time on pathological repetitions up to 10^5 characters must scale linearly (bounded measurement, reported separately). "
+            "Hosts include zone identifiers that begin with the characters of the %25 delimiter and reg-names containing U+3002/U+FF0E/U+FF61.",
             "the timing clause is a bounded measurement on a finite family, not an enumeration verdict; 'either' regions counted in the evidence.",
             "DESIGN.md \u00a73 C14"),
     "C15": ("exploration",
@@ -150,14 +162,16 @@ CHECKS = {
             "the dialled address, Host header, TLS server name, CONNECT authority and request target are read off the network and compared with an independent reading of the URL; "
             "case/default-port variants must reach the same pool and produce byte-identical requests; URLs without a host must be rejected. "
             "Redirect follow-ups (chains of 1-2 hops over every Location form) are requests for URLs too: the Host header of every request must name the origin that request is addressed to. "
-            "Request paths include one that looks like a network-path reference (//n.test/b), which must stay a path.",
+            "Request paths include one that looks like a network-path reference (//n.test/b), which must stay a path. "
+            "Follow-ups are also run under caller policies that strip nothing / only a field of the caller's own.",
             "simnet records what create_connection and the TLS layer were given; zone-id spelling in Host/CONNECT is 'either'.",
             "DESIGN.md \u00a73 C15"),
     "C19": ("exploration",
             "exhaustive enumeration of Timeout(total, connect, read) grids x placements x connect/tunnel durations x 2-request histories on a virtual clock (simnet), timeout arithmetic reference",
             "Every (total, connect, read) over {unset, None, 0.5, 2, 10} at pool and request level, connect / CONNECT-exchange / send durations from the duration alphabet, direct, forwarding and tunnel routes, fresh and reused connections, "
             "sequences of two requests sharing a pool Timeout: the timeout in force at every socket wait is read from the in-memory socket and compared with min(connect,total) / min(read,total-elapsed); "
-            "zero remaining budget must raise ReadTimeoutError without waiting; every invalid value must be rejected at construction; a request's clock never leaks into the next.",
+            "zero remaining budget must raise ReadTimeoutError without waiting; every invalid value must be rejected at construction; a request's clock never leaks into the next. "
+            "Family retry: the first attempt fails at once (dial refused / reset after the request) and the retried attempt must wait under the same effective timeout.",
             "virtual clock owned by simnet; 'either' regions (send time counted or not) recorded in the evidence.",
             "DESIGN.md \u00a73 C19"),
     "C20": ("exploration",
@@ -165,7 +179,8 @@ CHECKS = {
             "All names and filenames up to the length bound over a hostile alphabet (quotes, CR, LF, backslash, semicolon, non-ASCII, boundary look-alikes), values that contain boundary prefixes, tuple/dict/RequestField inputs and field lists up to the arity bound: "
             "the body must parse under the strict parser into exactly the given fields in order, with WHATWG-escaped names, the data bytes intact, the boundary of the returned content type, and a closing delimiter. "
             "The same field objects encoded a second time must give the same bytes; a caller's HTTPHeaderDict used for two requests must not carry the first boundary into the second; "
-            "an empty caller mapping (headers={}) replaces the object's default headers, it does not fall back to them.",
+            "an empty caller mapping (headers={}) replaces the object's default headers, it does not fall back to them; "
+            "one header dict handed to two RequestFields stays the caller's (unchanged) and each part keeps its own headers.",
             "boundaries are read from the returned content type (os.urandom stand-in keeps them deterministic); precondition: boundary does not occur in any supplied string.",
             "DESIGN.md \u00a73 C20"),
 }
